@@ -15,6 +15,16 @@ func findFunc(prog *ssa.Program, name string) *ssa.Function {
 	return funcIndex(prog)[name]
 }
 
+// funcIdxAlias makes renamed functions findable under the names their contracts use.
+func funcIdxAlias(prog *ssa.Program, alias map[string]string) {
+	m := funcIndex(prog)
+	for old, now := range alias {
+		if f := m[now]; f != nil && m[old] == nil {
+			m[old] = f
+		}
+	}
+}
+
 var funcIdxCache map[*ssa.Program]map[string]*ssa.Function
 
 func funcIndex(prog *ssa.Program) map[string]*ssa.Function {
